@@ -4,6 +4,7 @@ package registration
 
 import (
 	"context"
+	"crypto/ecdh"
 	"time"
 
 	"github.com/hashicorp/nodeenrollment"
@@ -18,6 +19,7 @@ func init() {
 	VfHarnesses["VerifC13WrappedFetchFaults"] = VerifC13WrappedFetchFaults
 	VfHarnesses["VerifC13TokenCreateFaults"] = VerifC13TokenCreateFaults
 	VfHarnesses["VerifC13NodeSideFaults"] = VerifC13NodeSideFaults
+	VfHarnesses["VerifC13DuplicateRecordFaults"] = VerifC13DuplicateRecordFaults
 }
 
 // vfFaultEnv: server storage with roots and an unrelated node's record (whose bytes must never change), wrapped by a
@@ -213,4 +215,52 @@ func VerifC13NodeSideFaults() {
 		vf.Assert("failure-leaves-stored-credentials-as-they-were", vf.EqBytes(nodeInner.Get(vfs.KindCreds, string(nodeenrollment.CurrentId)), before))
 	}
 	vf.Assert("no-fault-means-success", vf.Implies(!f.Hit, err == nil))
+}
+
+// C13, a storage that refuses to overwrite node records (store-once): a wrapper-flow fetch repeated for a key that
+// already has a record makes the library fall back to the stored record; with a fault anywhere - in particular on
+// that reload - credentials are handed out only if they are the ones in storage.
+func VerifC13DuplicateRecordFaults() {
+	ctx := context.Background()
+	t0 := vf.Now()
+	vf.ShortScenario(t0, time.Second)
+	inner := &vfs.Storage{Once: true}
+	vfs.StoreRoots(ctx, inner, t0)
+	w := vfAeadWrapper("reg", 6)
+	creds, err := types.NewNodeCredentials(ctx, &vfs.Storage{})
+	if err != nil {
+		panic(err)
+	}
+	req, err := creds.CreateFetchNodeCredentialsRequest(ctx, nodeenrollment.WithRegistrationWrapper(w))
+	if err != nil {
+		panic(err)
+	}
+	if _, err := FetchNodeCredentials(ctx, inner, req, nodeenrollment.WithRegistrationWrapper(w)); err != nil { // first, undisturbed enrollment
+		panic(err)
+	}
+	keyId, _ := nodeenrollment.KeyIdFromPkix(creds.CertificatePublicKeyPkix)
+	before := inner.Get(vfs.KindNode, keyId)
+	const maxOps = 7
+	f := &vfs.Faulty{Inner: inner, FailAt: vf.Int("fail-at", -1, maxOps), ErrKind: vf.Int("error-kind", 0, 2)}
+	resp, err := FetchNodeCredentials(ctx, f, req, nodeenrollment.WithRegistrationWrapper(w))
+	vf.Assert("op-count-within-bound", f.N <= maxOps)
+	if f.Hit {
+		vf.Reach("fault-hit")
+	}
+	vf.Assert("stored-record-never-replaced", vf.EqBytes(inner.Get(vfs.KindNode, keyId), before))
+	if vfIssued(resp, err) {
+		vf.Reach("issued")
+		stored, lerr := types.LoadNodeInformation(ctx, inner, keyId)
+		vf.Assert("record-present", lerr == nil)
+		if lerr == nil {
+			priv, perr := ecdh.X25519().NewPrivateKey(stored.ServerEncryptionPrivateKeyBytes)
+			vf.Assert("stored-server-key-usable", perr == nil)
+			if perr == nil {
+				vf.Assert("credentials-handed-out-are-the-persisted-ones", vf.EqBytes(resp.ServerEncryptionPublicKeyBytes, priv.PublicKey().Bytes()))
+			}
+		}
+	} else {
+		vf.Reach("not-issued")
+	}
+	vf.Assert("no-fault-means-success", vf.Implies(!f.Hit, vfIssued(resp, err)))
 }
